@@ -291,6 +291,8 @@ impl<MutexType: RawMutex, T> Drop for GenericMutexGuard<'_, MutexType, T> {
     fn drop(&mut self) {
         // Release the mutex
         let waker = { self.mutex.state.lock().unlock() };
+        #[cfg(futures_intrusive_verif)]
+        crate::verif::point(1);
         if let Some(waker) = waker {
             waker.wake();
         }
@@ -395,6 +397,8 @@ impl<'a, MutexType: RawMutex, T> Drop
             None
         };
 
+        #[cfg(futures_intrusive_verif)]
+        crate::verif::point(2);
         if let Some(waker) = waker {
             waker.wake();
         }
@@ -473,6 +477,61 @@ impl<MutexType: RawMutex, T> GenericMutex<MutexType, T> {
     /// Returns whether the mutex is locked.
     pub fn is_locked(&self) -> bool {
         self.state.lock().is_locked()
+    }
+}
+
+#[cfg(futures_intrusive_verif)]
+fn verif_node_info(node: &ListNode<WaitQueueEntry>) -> crate::verif::NodeInfo {
+    let (prev, next) = node.verif_links();
+    let (has_waker, waker_data) = crate::verif::waker_data(&node.task);
+    crate::verif::NodeInfo {
+        prev,
+        next,
+        state: match node.state {
+            PollState::New => 0,
+            PollState::Waiting => 1,
+            PollState::Notified => 2,
+            PollState::Done => 3,
+        },
+        has_waker,
+        waker_data,
+        ..Default::default()
+    }
+}
+
+#[cfg(futures_intrusive_verif)]
+impl<MutexType: RawMutex, T> GenericMutex<MutexType, T> {
+    /// Reports the internal state while holding the internal lock
+    pub fn verif_inspect(
+        &self,
+        visit: &mut dyn FnMut(crate::verif::Visit) -> bool,
+    ) {
+        use crate::verif::{PrimInfo, Visit};
+        let state = self.state.lock();
+        let (head, tail) = state.waiters.verif_ends();
+        visit(Visit::Prim(PrimInfo {
+            head,
+            tail,
+            flag: state.is_locked,
+            fair: state.is_fair,
+            ..Default::default()
+        }));
+        crate::verif::walk_list(&state.waiters, 0, visit, &verif_node_info);
+        visit(Visit::Done);
+    }
+}
+
+#[cfg(futures_intrusive_verif)]
+impl<'a, MutexType: RawMutex, T> GenericMutexLockFuture<'a, MutexType, T> {
+    /// Address of the embedded wait node
+    pub fn verif_node_addr(&self) -> usize {
+        &self.wait_node as *const _ as usize
+    }
+
+    /// Content of the embedded wait node. Must only be called while no other
+    /// thread can access the node (e.g. from within `verif_inspect`)
+    pub unsafe fn verif_node_info(&self) -> crate::verif::NodeInfo {
+        verif_node_info(&self.wait_node)
     }
 }
 
